@@ -136,7 +136,7 @@ static std::vector<std::string> listDir(const std::string &d, const std::string 
 }
 
 int main(int argc, char **argv) {
-  ctx = parse_args("C03", argc, argv, 150, 1500);
+  ctx = parse_args("C03", argc, argv, 300, 1500);
   if (chdir(ctx.scratch.c_str())) harness_fail("chdir");
   Report rep; rep.ctx = ctx;
   auto K = cornerSet(ctx.thorough()); uint64_t nk = K.size(); const uint64_t NPC = sizeof(PCS) / sizeof(PCS[0]);
